@@ -91,6 +91,35 @@ func (a *v4Adapter) request(xid int, variant int) (any, []byte) {
 	if err != nil {
 		panic(err)
 	}
+	if variant >= 4 {
+		// variants 4..: a bit mask of request features — what the request says (addresses, flags, identifiers) is the
+		// caller's business; the client transmits it as it is, to the destination it was given
+		m := variant - 4
+		if m&1 != 0 {
+			p.ClientIPAddr = net.IP{10, 0, 0, 9}
+		}
+		if m&2 != 0 {
+			p.UpdateOption(dhcpv4.OptServerIdentifier(net.IP{10, 0, 0, 1}))
+		}
+		if m&4 != 0 {
+			p.SetBroadcast()
+		} else {
+			p.SetUnicast()
+		}
+		if m&8 != 0 {
+			p.UpdateOption(dhcpv4.OptRequestedIPAddress(net.IP{10, 0, 0, 9}))
+			p.UpdateOption(dhcpv4.OptMessageType(dhcpv4.MessageTypeRequest))
+		}
+		if m&16 != 0 {
+			p.GatewayIPAddr = net.IP{10, 0, 9, 1}
+			p.HopCount = 1
+		}
+		if m&32 != 0 {
+			p.UpdateOption(dhcpv4.OptClientIdentifier([]byte{1, 2, 0x11, 0x22, 0x33, 0x44, 0x55}))
+			p.UpdateOption(dhcpv4.OptMaxMessageSize(1500))
+		}
+		return p, p.ToBytes()
+	}
 	switch variant % 4 {
 	case 1:
 		p.UpdateOption(dhcpv4.OptHostName("client-under-test"))
@@ -246,6 +275,25 @@ func (a *v6Adapter) request(xid int, variant int) (any, []byte) {
 	}
 	if err != nil {
 		panic(err)
+	}
+	if variant >= 4 {
+		f := variant - 4
+		if f&1 != 0 {
+			m.AddOption(dhcpv6.OptServerID(&dhcpv6.DUIDLL{HWType: 1, LinkLayerAddr: net.HardwareAddr{0xaa, 0, 0, 0, 0, 1}}))
+			m.MessageType = dhcpv6.MessageTypeRequest
+		}
+		if f&2 != 0 {
+			m.AddOption(&dhcpv6.OptIANA{IaId: [4]byte{1, 2, 3, 4}, T1: time.Hour, T2: 2 * time.Hour})
+		}
+		if f&4 != 0 {
+			m.AddOption(dhcpv6.OptElapsedTime(0xffff * 10 * time.Millisecond))
+		}
+		if f&8 != 0 {
+			m.MessageType = dhcpv6.MessageTypeRenew
+		}
+		if f&16 != 0 {
+			m.AddOption(&dhcpv6.OptionGeneric{OptionCode: 65010, OptionData: make([]byte, 1300)})
+		}
 	}
 	m.TransactionID = xid6(xid)
 	return m, m.ToBytes()
